@@ -214,40 +214,40 @@ Proof. exact CommentsRefuse.unclaim_refusal_happens. Qed.
    document: type check, deep copy of the right operand (raises on a NumberExpr whose tree was moved into another
    expression: it has no tokens left), parentheses around self, coercion of the COPY, splice, new tree.  A refused call -
    operand not a number (TypeError), NaN (decimal.InvalidOperation), spent expression (ValueError) - returns the store
-   and the left operand (first token, tree) it was given, for every store, every left operand that lives in its own
-   store (attached inside a document or free-standing), every operator. *)
+   and the left operand (first token, tree) it was given, for every store, every left operand (attached inside a
+   document, free-standing, or itself spent: its tree living in somebody else's document), every operator. *)
 From AB Require NumExpr NumExprSteps NumExprStepsProofs.
 
-(* Full statement wanted: for every left operand.  Refuted by the model for a left operand that is itself spent
-   (C19_arith_spent_self_refuted); proved for every left operand that is in its own store - every number of a document -
-   and, for a spent one, for `+=`/`-=` and for `*=`/`/=` on a left operand that needs no parentheses. *)
+(* every operator, every store, every right operand, EVERY left operand (in its own store or itself spent) *)
 Theorem C19_arith_refused_atomic :
   forall (k : NumExpr.binop) (s : list NumExpr.tok) (self : NumExprSteps.sref) (o : NumExprSteps.soperand)
          (s' : list NumExpr.tok) (self' : NumExprSteps.sref) (e : exn),
-    NumExprSteps.s_owns self = true ->
     NumExprSteps.s_idunder NumExprSteps.VCode k s self o = (s', self', Err e) -> s' = s /\ self' = self.
 Proof. exact NumExprStepsProofs.idunder_refused_atomic. Qed.
 
-Theorem C19_arith_spent_self_partial :
-  (forall s self other minus s' self' e,
-     NumExprSteps.s_iaddsub s self other minus = (s', self', Err e) -> s' = s /\ self' = self) /\
-  (forall s self other div s' self' e,
-     NumExprSteps.s_owns self = true \/ NumExpr.add_has_ops (NumExprSteps.s_tree self) = false ->
-     NumExprSteps.s_imuldiv NumExprSteps.VCode s self other div = (s', self', Err e) -> s' = s /\ self' = self).
-Proof. split; [exact NumExprStepsProofs.iaddsub_refused_atomic | exact NumExprStepsProofs.imuldiv_refused_atomic]. Qed.
-
-(* the code as it is: the left operand's tree `1 + 2` was moved into a number of the document `A 1 + 2 U`; `left *= 3` is
-   refused (ValueError) after _wrap_paren wrote `(` `)` into the store of the TREE - the receiving document, which now prints
-   `A (1 + 2) U` with parentheses no node owns.  Known finding C19:refusal-not-atomic:spent-left-operand. *)
-Theorem C19_arith_spent_self_refuted :
+(* the code as found (_wrap_paren through add_expr.token_store; repaired by fixes/number-expr-spent-left-operand.patch): the
+   left operand's tree `1 + 2` was moved into a number of the document `A 1 + 2 U`; `left *= 3` is refused (ValueError) after
+   _wrap_paren wrote `(` `)` into the store of the TREE - the receiving document, which then prints `A (1 + 2) U` with
+   parentheses no node owns.  The repaired code refuses the same call with nothing written. *)
+Theorem C19_asfound_arith_spent_self_refuted :
   NumExprSteps.attached NumExprStepsProofs.wf_store NumExprStepsProofs.wf_spent_self /\
   exists s',
-    NumExprSteps.s_idunder NumExprSteps.VCode NumExpr.OpMul NumExprStepsProofs.wf_store NumExprStepsProofs.wf_spent_self
+    NumExprSteps.s_idunder NumExprSteps.VAsFound NumExpr.OpMul NumExprStepsProofs.wf_store NumExprStepsProofs.wf_spent_self
       (NumExprSteps.OScalar false [51]) = (s', NumExprSteps.SR 3 NumExprStepsProofs.wf_self_tree false, Err ValueError) /\
     s' <> NumExprStepsProofs.wf_store /\
     NumExpr.text s' = [65; 32; 40; 49; 32; 43; 32; 50; 41; 32; 85] /\
-    NumExpr.text NumExprStepsProofs.wf_store = [65; 32; 49; 32; 43; 32; 50; 32; 85].
-Proof. exact NumExprStepsProofs.spent_self_refuted. Qed.
+    NumExpr.text NumExprStepsProofs.wf_store = [65; 32; 49; 32; 43; 32; 50; 32; 85] /\
+    NumExprSteps.s_idunder NumExprSteps.VCode NumExpr.OpMul NumExprStepsProofs.wf_store NumExprStepsProofs.wf_spent_self
+      (NumExprSteps.OScalar false [51]) = (NumExprStepsProofs.wf_store, NumExprStepsProofs.wf_spent_self, Err ValueError).
+Proof. exact NumExprStepsProofs.asfound_spent_self_refuted. Qed.
+
+(* what held as found: atomic for every left operand in its own store *)
+Theorem C19_asfound_arith_refused_atomic_partial :
+  forall (k : NumExpr.binop) (s : list NumExpr.tok) (self : NumExprSteps.sref) (o : NumExprSteps.soperand)
+         (s' : list NumExpr.tok) (self' : NumExprSteps.sref) (e : exn),
+    NumExprSteps.s_owns self = true ->
+    NumExprSteps.s_idunder NumExprSteps.VAsFound k s self o = (s', self', Err e) -> s' = s /\ self' = self.
+Proof. exact NumExprStepsProofs.asfound_idunder_refused_atomic. Qed.
 
 (* the refused calls are exactly: right operand not a number / NaN / spent, and every call on a spent left operand *)
 Theorem C19_arith_refused_iff :
@@ -256,7 +256,7 @@ Theorem C19_arith_refused_iff :
     | Some e => NumExprSteps.s_idunder NumExprSteps.VCode k s self o = (s, self, Err e)
     | None => if NumExprSteps.s_owns self
               then exists s' self', NumExprSteps.s_idunder NumExprSteps.VCode k s self o = (s', self', Ok tt)
-              else exists s' self', NumExprSteps.s_idunder NumExprSteps.VCode k s self o = (s', self', Err ValueError)
+              else NumExprSteps.s_idunder NumExprSteps.VCode k s self o = (s, self, Err ValueError)
     end.
 Proof. exact NumExprStepsProofs.idunder_refused_iff. Qed.
 
